@@ -1,5 +1,463 @@
 package main
 
-import "github.com/cosmos/cosmos-proto/internal/zzverif/hz"
+import (
+	"bytes"
+	"encoding/hex"
+	"fmt"
+	"os"
+	"strings"
 
-func runC14(h *hz.H) { h.InternalError("C14 not built yet") }
+	"github.com/cosmos/cosmos-proto/internal/zzverif/enum"
+	"github.com/cosmos/cosmos-proto/internal/zzverif/hz"
+	"google.golang.org/protobuf/encoding/protowire"
+	"google.golang.org/protobuf/proto"
+	"google.golang.org/protobuf/reflect/protoreflect"
+)
+
+// A stream is parsed, with the schema, into a tree of levels so that unknown records can be
+// inserted at every record boundary of every nesting level and the enclosing lengths recomputed.
+type node struct {
+	md    protoreflect.MessageDescriptor
+	shape string // how this level is reached from the top, e.g. "top", "top>message/singular", ...
+	recs  []nrec
+}
+
+type nrec struct {
+	raw []byte // leaf: complete record
+	tag []byte // non-leaf: tag of a known length-delimited message field ...
+	sub *node  // ... whose payload is this level
+	// map<_,message> entry: tag + entry whose value (field 2) is a level
+	entryPre, entryPost []byte // entry body before / after the value record's payload (incl. value tag in pre)
+	isEntry             bool
+}
+
+func parseLevel(b []byte, md protoreflect.MessageDescriptor, shape string, depth int) (*node, bool) {
+	n := &node{md: md, shape: shape}
+	for len(b) > 0 {
+		num, wt, tl := protowire.ConsumeTag(b)
+		if tl < 0 {
+			return nil, false
+		}
+		vl := protowire.ConsumeFieldValue(num, wt, b[tl:])
+		if vl < 0 {
+			return nil, false
+		}
+		rec := b[:tl+vl]
+		fd := md.Fields().ByNumber(num)
+		if fd != nil && wt == protowire.BytesType && fd.Kind() == protoreflect.MessageKind && depth < 6 {
+			payload, _ := protowire.ConsumeBytes(b[tl:])
+			if fd.IsMap() {
+				if fd.MapValue().Kind() == protoreflect.MessageKind {
+					// locate the (last) value record inside the entry
+					e := payload
+					off := 0
+					vs, ve := -1, -1
+					for off < len(e) {
+						en, ewt, etl := protowire.ConsumeTag(e[off:])
+						if etl < 0 {
+							return nil, false
+						}
+						evl := protowire.ConsumeFieldValue(en, ewt, e[off+etl:])
+						if evl < 0 {
+							return nil, false
+						}
+						if en == 2 && ewt == protowire.BytesType {
+							vs, ve = off+etl, off+etl+evl
+						}
+						off += etl + evl
+					}
+					if vs >= 0 {
+						vp, _ := protowire.ConsumeBytes(e[vs:ve])
+						sub, ok := parseLevel(vp, fd.MapValue().Message(), shape+">"+shapeName(fd), depth+1)
+						if !ok {
+							return nil, false
+						}
+						n.recs = append(n.recs, nrec{tag: b[:tl], sub: sub, isEntry: true, entryPre: append([]byte(nil), e[:vs]...), entryPost: append([]byte(nil), e[ve:]...)})
+						b = b[tl+vl:]
+						continue
+					}
+				}
+			} else {
+				sub, ok := parseLevel(payload, fd.Message(), shape+">"+shapeName(fd), depth+1)
+				if !ok {
+					return nil, false
+				}
+				n.recs = append(n.recs, nrec{tag: append([]byte(nil), b[:tl]...), sub: sub})
+				b = b[tl+vl:]
+				continue
+			}
+		}
+		n.recs = append(n.recs, nrec{raw: append([]byte(nil), rec...)})
+		b = b[tl+vl:]
+	}
+	return n, true
+}
+
+func shapeName(fd protoreflect.FieldDescriptor) string {
+	s := "message/singular"
+	switch {
+	case fd.IsMap():
+		s = "map<" + fd.MapKey().Kind().String() + ",message>-value"
+	case fd.IsList():
+		s = "message/list-element"
+	}
+	if od := fd.ContainingOneof(); od != nil && !od.IsSynthetic() {
+		s = "message/oneof-member"
+	}
+	return s
+}
+
+type inj struct {
+	level *node
+	pos   int
+	rec   []byte
+}
+
+func (n *node) serialize(injs []inj) []byte {
+	var out []byte
+	emitInj := func(pos int) {
+		for _, in := range injs {
+			if in.level == n && in.pos == pos {
+				out = append(out, in.rec...)
+			}
+		}
+	}
+	for i, r := range n.recs {
+		emitInj(i)
+		switch {
+		case r.sub == nil:
+			out = append(out, r.raw...)
+		case r.isEntry:
+			val := r.sub.serialize(injs)
+			var e []byte
+			e = append(e, r.entryPre...)
+			e = protowire.AppendBytes(e, val)
+			e = append(e, r.entryPost...)
+			out = append(out, r.tag...)
+			out = protowire.AppendBytes(out, e)
+		default:
+			out = append(out, r.tag...)
+			out = protowire.AppendBytes(out, r.sub.serialize(injs))
+		}
+	}
+	emitInj(len(n.recs))
+	return out
+}
+
+func (n *node) levels(out *[]*node) {
+	*out = append(*out, n)
+	for _, r := range n.recs {
+		if r.sub != nil {
+			r.sub.levels(out)
+		}
+	}
+}
+
+// unknownsWithKnownNumbers walks a decoded message (slow view) and reports any unknown record whose
+// field number is declared at that level.
+func unknownsWithKnownNumbers(m protoreflect.Message, path string) string {
+	m = enum.Rewrap(m)
+	u := m.GetUnknown()
+	for len(u) > 0 {
+		num, _, n := protowire.ConsumeField(u)
+		if n < 0 {
+			return path + ": unknown set is not a sequence of well-formed records"
+		}
+		if m.Descriptor().Fields().ByNumber(num) != nil {
+			return fmt.Sprintf("%s: known field number %d stored in the unknown set", path, num)
+		}
+		u = u[n:]
+	}
+	res := ""
+	m.Range(func(fd protoreflect.FieldDescriptor, v protoreflect.Value) bool {
+		if fd.Kind() != protoreflect.MessageKind {
+			return true
+		}
+		switch {
+		case fd.IsMap():
+			if fd.MapValue().Kind() == protoreflect.MessageKind {
+				v.Map().Range(func(k protoreflect.MapKey, mv protoreflect.Value) bool {
+					res = unknownsWithKnownNumbers(mv.Message(), path+"."+string(fd.Name()))
+					return res == ""
+				})
+			}
+		case fd.IsList():
+			for i := 0; i < v.List().Len() && res == ""; i++ {
+				res = unknownsWithKnownNumbers(v.List().Get(i).Message(), path+"."+string(fd.Name()))
+			}
+		default:
+			res = unknownsWithKnownNumbers(v.Message(), path+"."+string(fd.Name()))
+		}
+		return res == ""
+	})
+	return res
+}
+
+type c14case struct {
+	Type    string   `json:"type"`
+	Base    string   `json:"base_stream_hex"`
+	BaseLbl string   `json:"base_label"`
+	Levels  []string `json:"levels"`
+	Pos     []int    `json:"positions"`
+	Recs    []string `json:"injected_records_hex"`
+	LvlIdx  []int    `json:"level_indexes"`
+	Mode    string   `json:"mode"`
+}
+
+func evalInjection(h *hz.H, md protoreflect.MessageDescriptor, base []byte, baseLbl string, root *node, lv []*node, injs []inj, idxs []int) {
+	stream := root.serialize(injs)
+	cc := c14case{Type: string(md.FullName()), Base: hex.EncodeToString(base), BaseLbl: baseLbl, Mode: "inject"}
+	var classes []string
+	for i, in := range injs {
+		cc.Levels = append(cc.Levels, in.level.shape)
+		cc.Pos = append(cc.Pos, in.pos)
+		cc.Recs = append(cc.Recs, hex.EncodeToString(in.rec))
+		cc.LvlIdx = append(cc.LvlIdx, idxs[i])
+		_, wt, _ := protowire.ConsumeTag(in.rec)
+		where := "middle"
+		if in.pos == 0 {
+			where = "first"
+		} else if in.pos == len(in.level.recs) {
+			where = "last"
+		}
+		classes = append(classes, fmt.Sprintf("%s:wiretype%d:%s", strings.TrimPrefix(in.level.shape, "top>"), wt, where))
+	}
+	key := func(oracle string) string {
+		return fmt.Sprintf("C14/%s/%s@%s", oracle, strings.Join(classes, " + "), md.FullName())
+	}
+	h.Eval(true, hz.HashBytes([]byte("C14"), []byte(md.FullName()), stream))
+	// reference
+	d := enum.NewDyn(md)
+	if err := proto.Unmarshal(stream, d); err != nil {
+		h.InternalError(fmt.Sprintf("reference rejects an injected stream %x: %v", stream, err))
+		return
+	}
+	want := enum.Canon(d, false)
+	// keep
+	g := enum.NewGo(md)
+	var err error
+	if p := hz.Catch(func() { err = proto.Unmarshal(append([]byte(nil), stream...), g) }); p != nil || err != nil {
+		h.Violate(key("keep/decode-failed"), fmt.Sprintf("decoding %s (base %s, unknown records injected at %v) failed: panic=%v err=%v", clip(stream), baseLbl, cc.Levels, p, err), cc)
+		return
+	}
+	if got := enum.Canon(enum.Slow(g), true); got != want {
+		h.Violate(key("keep/value"), fmt.Sprintf("unknown records not kept exactly where they occurred for stream %s (base %s, injected at %v):\n reference %s\n generated %s", clip(stream), baseLbl, cc.Levels, clips(want), clips(got)), cc)
+		return
+	}
+	if bad := unknownsWithKnownNumbers(enum.Slow(g), "top"); bad != "" {
+		h.Violate(key("keep/known-in-unknown"), fmt.Sprintf("stream %s: %s", clip(stream), bad), cc)
+		return
+	}
+	refBytes, _ := proto.MarshalOptions{Deterministic: true}.Marshal(d)
+	var out []byte
+	if p := hz.Catch(func() { out, err = proto.MarshalOptions{Deterministic: true}.Marshal(g) }); p != nil || err != nil || !bytes.Equal(out, refBytes) {
+		h.Violate(key("keep/re-encode"), fmt.Sprintf("re-encoding after decoding %s differs from the reference (known fields then the unknown bytes unchanged at each level): panic=%v err=%v\n generated %s\n reference %s", clip(stream), p, err, clip(out), clip(refBytes)), cc)
+		return
+	}
+	// discard
+	dd := enum.NewDyn(md)
+	if err := (proto.UnmarshalOptions{DiscardUnknown: true}).Unmarshal(stream, dd); err != nil {
+		h.InternalError("reference rejects stream in discard mode")
+		return
+	}
+	wantD := enum.Canon(dd, false)
+	gd := enum.NewGo(md)
+	if p := hz.Catch(func() { err = proto.UnmarshalOptions{DiscardUnknown: true}.Unmarshal(append([]byte(nil), stream...), gd) }); p != nil || err != nil {
+		h.Violate(key("discard/decode-failed"), fmt.Sprintf("DiscardUnknown decode of %s failed: panic=%v err=%v", clip(stream), p, err), cc)
+		return
+	}
+	gotD := enum.Canon(enum.Slow(gd), true)
+	if strings.Contains(gotD, "?:") {
+		h.Violate(key("discard/survivor"), fmt.Sprintf("an unknown record survived DiscardUnknown for stream %s: %s", clip(stream), clips(gotD)), cc)
+		return
+	}
+	if gotD != wantD {
+		h.Violate(key("discard/value"), fmt.Sprintf("DiscardUnknown changed something other than unknown fields for stream %s:\n reference %s\n generated %s", clip(stream), clips(wantD), clips(gotD)), cc)
+		return
+	}
+	// and it equals the discard-decode of the base stream without the injected records
+	gb := enum.NewGo(md)
+	if p := hz.Catch(func() { err = proto.UnmarshalOptions{DiscardUnknown: true}.Unmarshal(append([]byte(nil), base...), gb) }); p == nil && err == nil {
+		if gotB := enum.Canon(enum.Slow(gb), true); gotB != gotD {
+			h.Violate(key("discard/differs-from-base"), fmt.Sprintf("with DiscardUnknown, the stream with injected unknown records decodes differently from the stream without them:\n with    %s\n without %s", clips(gotD), clips(gotB)), cc)
+			return
+		}
+	}
+	if h.WantSample() && len(injs) == 2 {
+		h.Sample(map[string]interface{}{"type": cc.Type, "base": baseLbl, "injected_at": cc.Levels, "positions": cc.Pos, "records_hex": cc.Recs, "stream_hex": clip(stream)})
+	}
+}
+
+// setUnknownRoundTrip checks GetUnknown/SetUnknown on a populated message.
+func setUnknownRoundTrip(h *hz.H, md protoreflect.MessageDescriptor, base []byte, baseLbl string, u []byte) {
+	cc := c14case{Type: string(md.FullName()), Base: hex.EncodeToString(base), BaseLbl: baseLbl, Recs: []string{hex.EncodeToString(u)}, Mode: "setunknown"}
+	key := func(o string) string { return fmt.Sprintf("C14/setunknown/%s@%s", o, md.FullName()) }
+	h.Eval(true, hz.HashBytes([]byte("C14su"), []byte(md.FullName()), base, u))
+	d := enum.NewDyn(md)
+	if err := (proto.UnmarshalOptions{DiscardUnknown: true}).Unmarshal(base, d); err != nil {
+		return
+	}
+	g := enum.BuildGo(d)
+	noUnk, _ := proto.MarshalOptions{Deterministic: true}.Marshal(d)
+	var got, gotSlow, enc, enc2 []byte
+	var after []byte
+	p := hz.Catch(func() {
+		f := g.ProtoReflect()
+		f.SetUnknown(protoreflect.RawFields(append([]byte(nil), u...)))
+		got = f.GetUnknown()
+		gotSlow = enum.Slow(g).GetUnknown()
+		enc, _ = proto.MarshalOptions{Deterministic: true}.Marshal(g)
+		f.SetUnknown(nil)
+		after = f.GetUnknown()
+		enc2, _ = proto.MarshalOptions{Deterministic: true}.Marshal(g)
+	})
+	if p != nil {
+		h.Violate(key("panic"), fmt.Sprintf("SetUnknown/GetUnknown panicked: %v", p), cc)
+		return
+	}
+	if !bytes.Equal(got, u) || !bytes.Equal(gotSlow, u) {
+		h.Violate(key("get-differs"), fmt.Sprintf("SetUnknown(%x) then GetUnknown() = %x (struct holds %x)", u, got, gotSlow), cc)
+		return
+	}
+	if !bytes.Equal(enc, append(append([]byte(nil), noUnk...), u...)) {
+		h.Violate(key("marshal"), fmt.Sprintf("after SetUnknown(%x) the encoding is not known-fields followed by exactly those bytes: %s", u, clip(enc)), cc)
+		return
+	}
+	if len(after) != 0 || !bytes.Equal(enc2, noUnk) {
+		h.Violate(key("clear"), fmt.Sprintf("SetUnknown(nil) left %x / encoding %s", after, clip(enc2)), cc)
+	}
+}
+
+func runC14(h *hz.H) {
+	if h.Replay != "" {
+		var cc c14case
+		h.LoadReplay(&cc)
+		md := findType(cc.Type)
+		if md == nil {
+			h.InternalError("replay: type not in this binary: " + cc.Type)
+			return
+		}
+		base, _ := hex.DecodeString(cc.Base)
+		if cc.Mode == "setunknown" {
+			u, _ := hex.DecodeString(cc.Recs[0])
+			setUnknownRoundTrip(h, md, base, cc.BaseLbl, u)
+		} else {
+			root, ok := parseLevel(base, md, "top", 0)
+			if !ok {
+				h.InternalError("replay: base stream does not parse")
+				return
+			}
+			var lv []*node
+			root.levels(&lv)
+			var injs []inj
+			for i := range cc.Recs {
+				r, _ := hex.DecodeString(cc.Recs[i])
+				injs = append(injs, inj{level: lv[cc.LvlIdx[i]], pos: cc.Pos[i], rec: r})
+			}
+			evalInjection(h, md, base, cc.BaseLbl, root, lv, injs, cc.LvlIdx)
+		}
+		h.Eval(true, 1)
+		h.Eval(true, 2)
+		return
+	}
+	types := enum.TypesMatching(os.Getenv("VERIF_TYPES"))
+	if len(types) < 5 {
+		h.InternalError(fmt.Sprintf("vacuous: only %d pulsar types found", len(types)))
+		return
+	}
+	type baseS struct {
+		md    protoreflect.MessageDescriptor
+		bytes []byte
+		label string
+	}
+	var bases []baseS
+	var names []string
+	for _, md := range types {
+		sp := enum.NewSpace(md, enum.Opts{Top: enum.Reduced, MaxDepth: 2})
+		n0 := len(bases)
+		seen := map[string]bool{}
+		sp.ForEach(1, 1, func(c enum.Case) bool {
+			d := sp.BuildDyn(c)
+			b, err := proto.MarshalOptions{Deterministic: true}.Marshal(d.Interface())
+			if err == nil && !seen[string(b)] {
+				seen[string(b)] = true
+				bases = append(bases, baseS{md, b, sp.Label(c)})
+			}
+			return true
+		})
+		for _, r := range enum.RecordAlphabet(md, false) {
+			if !seen[string(r.Bytes)] {
+				seen[string(r.Bytes)] = true
+				bases = append(bases, baseS{md, r.Bytes, "record " + r.Label})
+			}
+		}
+		names = append(names, fmt.Sprintf("%s: %d base streams", md.FullName(), len(bases)-n0))
+	}
+	h.Rep.Bounds["types"] = names
+	two := 2 // unknown records used for double injections
+	if h.Thorough() {
+		two = 4
+	}
+	h.Rep.Bounds["unknown_alphabet_single_injection"] = "varint, bytes, fixed32, fixed64(max field number), group with nested group, non-minimal varint, two records, a number known one level up"
+	h.Rep.Bounds["unknown_records_used_in_double_injections"] = two
+	var levelShapes = map[string]bool{}
+	h.Stream("unknown-field injections", func(emit func(interface{}) bool) {
+		for i := range bases {
+			if !emit(i) {
+				return
+			}
+		}
+	}, func(it interface{}) {
+		bs := bases[it.(int)]
+		root, ok := parseLevel(bs.bytes, bs.md, "top", 0)
+		if !ok {
+			h.InternalError(fmt.Sprintf("base stream does not parse: %x", bs.bytes))
+			return
+		}
+		var lv []*node
+		root.levels(&lv)
+		// per level: the unknown alphabet of that level (+ a number known in the parent but not here)
+		type point struct {
+			li, pos int
+			rec     []byte
+		}
+		var pts, ptsSmall []point
+		for li, l := range lv {
+			alpha := enum.UnknownAlphabet(l.md, enum.Boundary)
+			if li > 0 {
+				// a field number that is known at the top level but not at this one
+				fs := bs.md.Fields()
+				for k := 0; k < fs.Len(); k++ {
+					if l.md.Fields().ByNumber(fs.Get(k).Number()) == nil {
+						alpha = append(alpha, protowire.AppendVarint(protowire.AppendTag(nil, fs.Get(k).Number(), protowire.VarintType), 5))
+						break
+					}
+				}
+			}
+			for pos := 0; pos <= len(l.recs); pos++ {
+				for ai, a := range alpha {
+					pts = append(pts, point{li, pos, a})
+					if ai < two || ai == 4 && two > 2 {
+						ptsSmall = append(ptsSmall, point{li, pos, a})
+					}
+				}
+			}
+		}
+		for _, p := range pts {
+			evalInjection(h, bs.md, bs.bytes, bs.label, root, lv, []inj{{lv[p.li], p.pos, p.rec}}, []int{p.li})
+		}
+		for a := 0; a < len(ptsSmall); a++ {
+			for b := a; b < len(ptsSmall); b++ {
+				p, q := ptsSmall[a], ptsSmall[b]
+				evalInjection(h, bs.md, bs.bytes, bs.label, root, lv, []inj{{lv[p.li], p.pos, p.rec}, {lv[q.li], q.pos, q.rec}}, []int{p.li, q.li})
+			}
+		}
+		for _, u := range enum.UnknownAlphabet(bs.md, enum.Boundary) {
+			setUnknownRoundTrip(h, bs.md, bs.bytes, bs.label, u)
+		}
+		h.Counter("nesting_levels_injected_into", int64(len(lv)))
+		_ = levelShapes
+	})
+	h.Rep.Rule = "base streams = reference encodings of every <=1-slot value (reduced alphabet, nesting depth 2) + every single record of the C03 alphabet, per pulsar type; each is parsed with the schema into nesting levels (top, singular message, list element, map value, oneof member); ONE unknown record from that level's unknown alphabet at EVERY record boundary of EVERY level, and every PAIR of injections over a reduced alphabet; DiscardUnknown off and on; plus SetUnknown/GetUnknown round trips; all cases non-trivial; distinct = hash(type, injected stream)"
+	h.Rep.Assumptions = []string{"dynamicpb (protobuf-go v1.34.0) is the reference for where unknown records are stored and how they are re-emitted", "unknown records injected inside map *entries* (not map values) are C03's business: the reference drops them"}
+}
